@@ -865,7 +865,8 @@ def run_api_audit(out, rng):
     p_.proba_distribution(t64(th, mp), t64(th, lp_))
     q_.proba_distribution(t64(th, mq), t64(th, lq))
     want = sum(lq[j] - lp_[j] + (math.exp(2 * lp_[j]) + (mp[0][j] - mq[0][j]) ** 2) / (2 * math.exp(2 * lq[j])) - 0.5 for j in range(2))
-    out.oracle("kl-gaussian", want, float(D.kl_divergence(p_, q_).reshape(-1)[0]))
+    # (for the diagonal Gaussian the wrapper returns torch's per-dimension KL terms; their sum is KL of the product)
+    out.oracle("kl-gaussian", want, float(D.kl_divergence(p_, q_).sum()))
     lp1, lq1 = [0.5, -1.0, 2.0], [0.0, 0.3, -0.7]
     pc, qc = D.CategoricalDistribution(3).proba_distribution(t64(th, [lp1])), D.CategoricalDistribution(3).proba_distribution(t64(th, [lq1]))
     zp, zq = o_lse(lp1), o_lse(lq1)
